@@ -16,8 +16,8 @@ CVC5 = shutil.which("cvc5") or "/usr/bin/cvc5"
 Z3_OLD = "/usr/bin/z3" if os.path.exists("/usr/bin/z3") else None
 Z3_NEW = shutil.which("z3-new")
 
-BUDGET = {"quick": {"inproc_ms": 1500, "ext_s": 10, "retry_s": 40, "batch_s": 240},
-          "thorough": {"inproc_ms": 5000, "ext_s": 60, "retry_s": 240, "batch_s": 1500}}
+BUDGET = {"quick": {"inproc_ms": 1500, "ext_s": 10, "retry_s": 40, "batch_s": 240, "check_s": 600},
+          "thorough": {"inproc_ms": 5000, "ext_s": 60, "retry_s": 240, "batch_s": 1500, "check_s": 6000}}
 
 _pool = ThreadPoolExecutor(max_workers=6)
 _cli_pool = ThreadPoolExecutor(max_workers=16)
@@ -549,6 +549,21 @@ def _check_many_whole(queries, tier="quick", want_model=True):
     left = []
     t_start = time.time()
     cap = b.get("batch_s", 300)
+    # wall clock for ALL solver batches of one check (like the exploration budget of the engine): once it is used up a batch gets 20 s;
+    # on the unchanged tree the whole solving of the largest check stays under a minute
+    total = b.get("check_s", 900)
+    if _solver_wall[0] > total:
+        cap = min(cap, 20)
+    try:
+        return _check_many_capped(queries, tier, want_model, out, b, left, t_start, cap)
+    finally:
+        _solver_wall[0] += time.time() - t_start
+
+
+_solver_wall = [0.0]
+
+
+def _check_many_capped(queries, tier, want_model, out, b, left, t_start, cap):
     for i, q in enumerate(queries):
         if time.time() - t_start > cap:
             # a batch that needs more than its wall-clock share is cut off: the remaining queries stay undecided (never `sat`/`unsat`)
